@@ -1238,9 +1238,9 @@ var idRe = regexp.MustCompile(`[^a-zA-Z0-9-_]+`)
 
 // Handlers is [am.Api.Handlers].
 func (m *NetworkMachine) Handlers() []string {
-	// TODO lock, support id
-	// w.handlersLock.Lock()
-	// defer w.handlersLock.Unlock()
+	// TODO support id
+	m.handlersMx.Lock()
+	defer m.handlersMx.Unlock()
 
 	ret := make([]string, 0, len(m.handlers))
 	for _, h := range m.handlers {
@@ -1252,6 +1252,9 @@ func (m *NetworkMachine) Handlers() []string {
 
 // HandlersDetach is [am.Api.DetachHandlers].
 func (m *NetworkMachine) HandlersDetach(bindingId string) error {
+	m.handlersMx.Lock()
+	defer m.handlersMx.Unlock()
+
 	old := m.handlers
 
 	for _, h := range old {
